@@ -713,7 +713,7 @@ func init() {
 		var items []StoreItem
 		// the third history is that of a joiner that fast-forwards (Reset from a frame) and then sees another join
 		sources := []string{scStatic3, scJoin3, "node3@ffjoin:3:5:110:44:0:1"}
-		caches := []int{2, 4, 10, 100, 10000}
+		caches := []int{2, 3, 4, 5, 7, 10, 11, 100, 10000}
 		for _, s := range sources {
 			for _, c := range caches {
 				items = append(items, StoreItem{Mode: "replay", Source: s, Cache: c})
@@ -806,7 +806,7 @@ func init() {
 		cov["counters"] = tot.Ctr
 		cov["exhaustive"] = handed == len(items)
 		cov["samples"] = []interface{}{tot.Sample}
-		cov["rule"] = fmt.Sprintf("(a) the exact Store write sequences of node 0 in the static3 and join3to4 E1 seeds and of a joiner that fast-forwards (Reset from a frame, then a further validator-set change) (values snapshotted in persisted form at call time) replayed on a real BadgerStore with cache sizes 2,4,10,100,10000 against a map/list model, with the complete read battery (GetEvent + database copy, ParticipantEvents from several skips, ParticipantEvent for every index, LastEventFrom, KnownEvents, topological listing, rounds, blocks, frames, peer sets, repertoire, roots with their content) after writes, and close+reopen after every write position (one run per position, database-backed reads only); (b) all sequences of depth %d over the direct alphabet {event p0, event p1, update last event of p0, block 0 / block 1 with growing signatures, round update, frame, close+reopen} with cache 2. states = sequences + distinct direct operation strings", depth)
+		cov["rule"] = fmt.Sprintf("(a) the exact Store write sequences of node 0 in the static3 and join3to4 E1 seeds and of a joiner that fast-forwards (Reset from a frame, then a further validator-set change) (values snapshotted in persisted form at call time) replayed on a real BadgerStore with cache sizes 2,3,4,5,7,10,11,100,10000 (odd and even: the rolling windows halve themselves) against a map/list model, with the complete read battery (GetEvent + database copy, ParticipantEvents from several skips, ParticipantEvent for every index, LastEventFrom, KnownEvents, topological listing, rounds, blocks, frames, peer sets, repertoire, roots with their content) after writes, and close+reopen after every write position (one run per position, database-backed reads only); (b) all sequences of depth %d over the direct alphabet {event p0, event p1, update last event of p0, block 0 / block 1 with growing signatures, round update, frame, close+reopen} with cache 2. states = sequences + distinct direct operation strings", depth)
 		rep.Assumptions = []string{"'value' = the persisted representation (body, signature, wire ids, topological index, coordinates); in-memory memo fields that MarshalDB omits by design are not compared", "after a reopen without bootstrap only database-backed reads are defined"}
 		return rep.Finish()
 	}
